@@ -22,7 +22,8 @@ RULE = ('every Metric subclass of fedjax.core.metrics with a grid of constructor
         'pool of examples; random partitions into batches of 1 / 2 / 4 rows, random batch orders, masked rows at random '
         'positions filled with in-domain targets and arbitrary finite / NaN / Inf predictions, fully masked and empty inputs, '
         'ClientDataset.padded_batch / batch as batch sources, evaluate_model / ModelEvaluator (global and per-client params) / '
-        'metrics.evaluate_batch (mask and None); Stat algebra called directly on in- and out-of-domain scalars; monoid laws '
+        'metrics.evaluate_batch (mask and None); one ModelEvaluator object used for successive calls with several clients (one without '
+        'real rows) under the debug (jit disabled) and jit for_each_client backends; Stat algebra called directly on in- and out-of-domain scalars; monoid laws '
         '(associativity, commutativity, zero identity on both sides, left / right / tree folds, merge adds fields) on the '
         'implementation\'s own single-example statistics straight from evaluate_example, for every metric configuration, '
         'through result() and the raw fields; '
@@ -323,7 +324,29 @@ def algebra_configs(tier, rng):
     yield {'pool_seed': rng.choice(seeds), 'rows': rows, 'model': 'plain' if i % 5 == 4 else 'dict'}
 
 
+def evaluator_configs(tier, rng):
+  """ModelEvaluator used the way an experiment uses it: ONE evaluator object, several successive
+  evaluate_* calls, several clients per call (one of them without real rows: no batches, or only
+  masked rows), under the 'debug' (jit disabled) and the 'jit' for_each_client backends."""
+  n = {'quick': 4, 'thorough': 24, 'search': 40}.get(tier, 4)
+  seed = rng.randrange(1, 10 ** 6)
+  for i in range(n):
+    backend = 'debug' if i % 2 == 0 else 'jit'
+    calls = []
+    for c in range(2 if tier == 'quick' else rng.choice([2, 3])):
+      clients = [gen_batches(rng, rng.randrange(1, 6), sizes=(2, 1), fully_masked=0.0) for _ in range(rng.choice([1, 2]))]
+      empty = rng.choice([[], [], [{'rows': [_garbage(rng), _garbage(rng)], 'mask': [False, False]}]])
+      clients.insert(rng.randrange(0, len(clients) + 1) if c else len(clients), empty)
+      calls.append({'mode': rng.choice(['global', 'per_client']), 'clients': clients})
+    yield {'pool_seed': seed, 'backend': backend, 'calls': calls, 'model': 'plain' if i % 4 == 2 else 'dict'}
+
+
 def generate(tier, rng):
+  for cfg in evaluator_configs(tier, rng):
+    names = METRIC_NAMES if cfg['model'] == 'dict' else PLAIN_NAMES
+    slots = [(ci, cl) for ci, call in enumerate(cfg['calls']) for cl in range(len(call['clients']))]
+    for j, name in enumerate(names):
+      yield {'kind': 'evaluator', **cfg, 'metric': name, 'observe': list(slots[(j * 7 + 3) % len(slots)])}
   for cfg in algebra_configs(tier, rng):
     for name in (METRIC_NAMES if cfg['model'] == 'dict' else PLAIN_NAMES):
       yield {'kind': 'algebra', **cfg, 'metric': name}
@@ -583,11 +606,60 @@ def _run_algebra(case):
           'rows': {str(i): rows[i] for i in case['rows']}}
 
 
+def _run_evaluator_config(cfg):
+  import jax
+  import fedjax
+  from fedjax.core import models
+  st = _setup()
+  key = json.dumps(['evaluator', cfg['pool_seed'], cfg['backend'], cfg['calls'], cfg['model']], sort_keys=True)
+  if key in st['memo']:
+    return st['memo'][key]
+  ps = pool_stats(cfg['pool_seed'])
+  pool = ps['pool']
+  which = cfg['model']
+  model, grid = st['model'][which], st['grid'][which]
+  out = []
+  with fedjax.for_each_client_backend(cfg['backend']):
+    ev = models.ModelEvaluator(model)          # one evaluator object for all the calls
+    for ci, call in enumerate(cfg['calls']):
+      feeds = [[_mk_batch(pool, b) for b in client] for client in call['clients']]
+      ids = [b'call%d-client%d' % (ci, i) for i in range(len(feeds))]
+      if call['mode'] == 'global':
+        got = dict(ev.evaluate_global_params({'p': np.zeros(2, np.float32)}, list(zip(ids, feeds))))
+      else:
+        got = dict(ev.evaluate_per_client_params(
+            [(cid, f, {'p': np.full(2, i, np.float32)}) for i, (cid, f) in enumerate(zip(ids, feeds))]))
+      got = jax.block_until_ready(got)
+      if set(got) != set(ids):
+        raise AssertionError('ModelEvaluator did not yield exactly one result per client')
+      out.append([{name: _flat_result(got[cid][name], ps[name][1])[0] for name in grid} for cid in ids])
+  st['memo'] = {key: out}
+  return out
+
+
+def _run_evaluator(case):
+  st = _setup()
+  cfg = {k: case[k] for k in ('pool_seed', 'backend', 'calls', 'model')}
+  full = _run_evaluator_config(cfg)
+  ps = pool_stats(case['pool_seed'])
+  kind, shape, rows = ps[case['metric']]
+  results = [[[_fin(v) for v in client[case['metric']]] for client in call] for call in full]
+  ci, cl = case['observe']
+  batches = case['calls'][ci]['clients'][cl]
+  used = {i for call in case['calls'] for client in call['clients'] for b in client for i in b['rows']}
+  return {'stat_kind': kind, 'K': int(np.prod(shape, dtype=np.int64)), 'uncovered': st['uncovered'],
+          'results': results, 'batches': batches, 'result': results[ci][cl], 'stat': None,
+          'n_real': sum(1 for b in batches for m in (b['mask'] or [True] * len(b['rows'])) if m),
+          'rows': {str(i): rows[i] for i in used}}
+
+
 def run(case):
   if case['kind'] == 'stat':
     return _run_stat(case)
   if case['kind'] == 'algebra':
     return _run_algebra(case)
+  if case['kind'] == 'evaluator':
+    return _run_evaluator(case)
   st = _setup()
   cfg = {k: case[k] for k in ('pool_seed', 'api', 'batches', 'model')}
   full = _run_config(cfg)
@@ -614,6 +686,8 @@ def oracle(case, obs):
     return _stat_oracle(case, obs)
   if case['kind'] == 'algebra':
     return _algebra_oracle(case, obs)
+  if case['kind'] == 'evaluator':
+    return _evaluator_oracle(case, obs)
   if obs['uncovered']:
     out.append(('uncovered-metric', 'built-in metric classes without a harness entry: ' + ', '.join(obs['uncovered'])))
   if not obs['extra_ok']:
@@ -649,6 +723,33 @@ def oracle(case, obs):
     if bad:
       out.append(('not-fold-of-examples', f'{name}: result differs from merging the single-example statistics one by one '
                   f'(entry {bad[0]}: {res[bad[0]]} vs {ref[bad[0]]})'))
+  return out
+
+
+def _evaluator_oracle(case, obs):
+  """Every client of every call on the same ModelEvaluator gets the result of ITS OWN examples folded
+  from zero (independent reference: sum(accum)/sum(weight) resp. sum(accum) of its real rows); a
+  client without real rows gets 0."""
+  out = []
+  name = case['metric']
+  tol = float(TOL_CE if _value_kind(case) == 'ce' else TOL_INT) * 4
+  for ci, call in enumerate(case['calls']):
+    for cl, client in enumerate(call['clients']):
+      res = obs['results'][ci][cl]
+      reals = [obs['rows'][str(r)] for b in client for r, m in zip(b['rows'], b['mask'] or [True] * len(b['rows'])) if m]
+      where = f'{name}: {case["backend"]} backend, call {ci} ({call["mode"]}), client {cl} of {len(call["clients"])}'
+      if not all(_row_finite(r) for r in reals):
+        continue
+      for i in range(obs['K']):
+        if obs['stat_kind'] == 'mean':
+          sa, sw = sum(r[i][0] for r in reals), sum(r[i][1] for r in reals)
+          want = sa / sw if sw != 0 else 0.0
+        else:
+          want = sum(r[i] for r in reals)
+        if res[i] is None or abs(res[i] - want) > tol * (1 + abs(want)):
+          key = 'evaluator-empty-client-nonzero' if not reals else 'evaluator-client-not-own-fold'
+          out.append((key, f'{where}: entry {i} is {res[i]}, its own examples give {want}'))
+          break
   return out
 
 
@@ -780,6 +881,8 @@ def encode(case, obs):
   if case['kind'] == 'algebra':
     obs = {**obs, 'result': obs['forms']['left']['result'], 'stat': None}
     case = {**case, 'api': 'evaluate_model'}
+  if case['kind'] == 'evaluator':
+    case = {**case, 'api': 'evaluator_global'}
   api = case['api']
   capi = {'evaluate_model': 'ApiModel', 'evaluator_global': 'ApiEvaluator', 'evaluator_per_client': 'ApiEvaluator',
           'evaluate_batch': 'ApiBatch', 'evaluate_batch_nomask': 'ApiBatch'}[api]
@@ -805,6 +908,8 @@ def nontrivial(case, obs):
     return case['op'] in ('merge', 'reduce')
   if case['kind'] == 'algebra':
     return True
+  if case['kind'] == 'evaluator':
+    return True
   nb = sum(1 for b in obs['batches'] if any(b['mask'] or [True]))
   masked = any(not m for b in obs['batches'] for m in (b['mask'] or []))
   return (obs['n_real'] >= 2 and nb >= 2) or masked
@@ -813,6 +918,9 @@ def nontrivial(case, obs):
 def describe(case, obs):
   if case['kind'] == 'stat':
     return {'kind': 'stat-' + case['op']}
+  if case['kind'] == 'evaluator':
+    return {'kind': 'evaluator', 'backend': case['backend'], 'calls': len(case['calls']),
+            'observed_client': 'no-real-rows' if obs['n_real'] == 0 else 'has-real-rows', 'metric': case['metric']}
   if case['kind'] == 'algebra':
     return {'kind': 'algebra', 'metric': case['metric'], 'field_dtypes': '/'.join(obs['singles'][0]['dtypes'])}
   bs = obs['batches']
@@ -828,6 +936,22 @@ def shrink(case):
   if case['kind'] == 'algebra' and len(case['rows']) > 3:
     for i in range(len(case['rows'])):
       yield {**case, 'rows': case['rows'][:i] + case['rows'][i + 1:]}
+  if case['kind'] == 'evaluator':
+    calls = case['calls']
+    for i in range(len(calls)):
+      if len(calls) > 1:
+        yield {**case, 'calls': calls[:i] + calls[i + 1:], 'observe': [0, 0]}
+    for i, call in enumerate(calls):
+      for j in range(len(call['clients'])):
+        if len(call['clients']) > 1:
+          nc = {**call, 'clients': call['clients'][:j] + call['clients'][j + 1:]}
+          yield {**case, 'calls': calls[:i] + [nc] + calls[i + 1:], 'observe': [0, 0]}
+        if len(call['clients'][j]) > 1:
+          for k in range(len(call['clients'][j])):
+            nb = call['clients'][j][:k] + call['clients'][j][k + 1:]
+            nc = {**call, 'clients': call['clients'][:j] + [nb] + call['clients'][j + 1:]}
+            yield {**case, 'calls': calls[:i] + [nc] + calls[i + 1:], 'observe': [0, 0]}
+    return
   if case['kind'] != 'eval' or not isinstance(case['batches'], list):
     return
   bs = case['batches']
